@@ -240,7 +240,7 @@ class History(Machine):
             # one build directory for all commands of the history: every command finds the output files of the others
             # (same names, other lengths) where it is about to write
             "shared_workdir": s.chance(0.3),
-            "fault_kinds": s.subset(["crash", "enospc", "eio_read", "short_read", "short_write", "open_fail", "stat_fail"], 0.6),
+            "fault_kinds": s.subset(["crash", "enospc", "eio_read", "short_read", "short_write", "write_fail", "open_fail", "stat_fail"], 0.6),
         }
         feats = [f for f in gen.ALL_FEATURES if s.chance(0.65)]
         blobs = [["fw_a.bin", s.choice([1, 24, 300, 4096])], ["fw_b.bin", s.choice([0, 255, 256, 1000])]]
